@@ -34,7 +34,14 @@ pub struct Case {
     /// that makes the name resolve later
     #[serde(default)]
     pub lookup_first: bool,
+    /// Some(j) (with `malformed`): the malformed text is numeric edge token #j (a number at the
+    /// limit of an integer width, in every spelling) in one of EDGE_FRAMES
+    #[serde(default)]
+    pub edge: Option<u16>,
 }
+
+/// Statement frames in which no number of magnitude >= 127 is a legal operand.
+pub const EDGE_FRAMES: &[&str] = &["add r0 r0 {}", "not r1 {}", "ret {}", "{}", "{} add r0 r0 r0", "add {} r0 r0", "ldr r0 r0 {}", "jmp {}", "and r0 r0 r0 {}", "push {}", "{good} {}"];
 
 pub const MALFORMED: &[&str] = &[
     "add r0 r0", "add r0", "add", "not r1", "ld r0", "ldr r0 r1", "str r0", "jmp", "jsrr", "trap", "push", "pop", "call", "jsr",
@@ -98,7 +105,13 @@ pub fn judge_case(c: &Case) -> Obs {
             // after it / one foreign token before it ("not exactly one well-formed instruction")
             let k = (i as usize * (MALFORMED.len() + SURPLUS.len() + PREFIXES.len())) >> 16;
             let good = crate::refdbg::stmt_text(&stmt);
-            Cmd::EvalText(if k < MALFORMED.len() {
+            Cmd::EvalText(if let Some(j) = c.edge {
+                // (#65535 / xFFFF / 0xffff are left out: whether a 16-bit pattern whose two's-complement
+                // reading fits a signed field is accepted there is unspecified - RefAsm `Fit::Either`)
+                let edges: Vec<&String> = super::c05::numeric_edges().iter().filter(|t| !["#65535", "xFFFF", "0xffff"].contains(&t.as_str())).collect();
+                let n = (j as usize * edges.len() * EDGE_FRAMES.len()) >> 16;
+                EDGE_FRAMES[n % EDGE_FRAMES.len()].replace("{good}", &good).replace("{}", edges[n / EDGE_FRAMES.len()])
+            } else if k < MALFORMED.len() {
                 MALFORMED[k].to_string()
             } else if k < MALFORMED.len() + SURPLUS.len() {
                 format!("{good} {}", SURPLUS[k - MALFORMED.len()])
@@ -233,10 +246,11 @@ fn cases() -> impl Strategy<Value = Case> {
         any::<bool>(),
         any::<bool>(),
         any::<bool>(),
+        crate::pick::opt(0.3, any::<u16>()),
     )
-        .prop_map(|(mut spec, pre_steps, goto, setup, eval, malformed, stack, twin_first, lookup_first)| {
+        .prop_map(|(mut spec, pre_steps, goto, setup, eval, malformed, stack, twin_first, lookup_first, edge)| {
             spec.stack = stack;
-            Case { spec, pre_steps, goto, setup, eval, malformed, twin_first, lookup_first }
+            Case { spec, pre_steps, goto, setup, eval, malformed, twin_first, lookup_first, edge: edge.filter(|_| malformed.is_some()) }
         })
 }
 
@@ -246,7 +260,7 @@ impl Prop for C15 {
     }
     fn rule(&self) -> &'static str {
         "Sessions `step into k; goto <code address>; move ... (set up registers / memory); eval <X>; move r3 x1234; exit` on ProgGen programs, under both feature settings: X is every register / immediate / base+offset instruction form, label operands (LD, LDI, LEA, ST, STI, JSR, CALL) defined before and after the current PC, stack instructions, output traps, \
-         the off-limits forms (BR*, RTI, HALT, unknown trap vectors), or a malformed text: one of ~100 fixed ones (missing, surplus and wrong-kind operands, two instructions, directives, garbage, multi-byte characters, unknown labels, out-of-range literals), or the generated well-formed instruction followed by one surplus token of every kind (directives incl. .end, registers, literals, labels, strings, mnemonics, junk) or preceded by a foreign token. \
+         the off-limits forms (BR*, RTI, HALT, unknown trap vectors), or a malformed text: one of ~100 fixed ones (missing, surplus and wrong-kind operands, two instructions, directives, garbage, multi-byte characters, unknown labels, out-of-range literals), or a number at the limit of an integer width (2^7..2^128, -1/0/+1, bare / zero-padded / signed / under every literal prefix) in one of 11 operand frames where no such number is legal, or the generated well-formed instruction followed by one surplus token of every kind (directives incl. .end, registers, literals, labels, strings, mnemonics, junk) or preceded by a foreign token. \
          Oracle: allowed => the state equals RefVM executing, at the current PC, the encoding whose PC-relative field makes the effective address the label's address (registers/PC/CC after every command, full memory at the end, output); PC changes only for jumps; off-limits or malformed => nothing changes; in every case the session goes on (the following `move r3 x1234` takes effect and `exit` ends it). The link value of JSR/JSRR and the word pushed by CALL are masked; literal PC offsets are not generated. \
          Non-trivial: the text is refused / malformed, or PC != origin and the instruction has a label operand or writes memory. Distinct = hash(source, script)."
     }
